@@ -101,6 +101,40 @@ func limitsReleasingScenarios(tier string) []clustermc.Scenario {
 	return out
 }
 
+// limitsGpuMemoryScenarios: gpu-memory requests on nodes whose GPUs have DIFFERENT memory sizes - the
+// share a pod is charged with depends on the node it is (re-)placed on - under fractional GPU limits that
+// lie between the two shares; whole-GPU pods compete for the big-GPU node so that solvers move the victim.
+func limitsGpuMemoryScenarios(tier string) []clustermc.Scenario {
+	m12 := world.Shape{CPUm: 500, GPUMem: "12000"}
+	menu := []wlItem{
+		{"run-m12-n1-qa", world.WL{Queue: "qa", Pods: pods(1, m12, world.StRunning, "n1")}},
+		{"run-m12-n2-qa", world.WL{Queue: "qa", Pods: pods(1, m12, world.StRunning, "n2")}},
+		{"pend-m12-qa", world.WL{Queue: "qa", Pods: pods(1, m12, "", "")}},
+		{"pend-g1-qb", world.WL{Queue: "qb", Pods: pods(1, shG1, "", "")}},
+		{"pend-g2-qb", world.WL{Queue: "qb", Pods: pods(1, shG2, "", "")}},
+		{"pend-g1-p75-qa", world.WL{Queue: "qa", PC: "p75", Pods: pods(1, shG1, "", "")}},
+		{"run-g1-n2-qb", world.WL{Queue: "qb", Pods: pods(1, shG1, world.StRunning, "n2")}},
+	}
+	u := world.QUnlimited()
+	g := func(q, l float64) world.QRes { return world.QRes{Quota: q, Limit: l, Weight: 1} }
+	var qsets []queueSetup
+	for _, lim := range []float64{0.5, 0.4, 1} {
+		lim := lim
+		qsets = append(qsets, queueSetup{name("gpumem-dept-limit*10=", []int{int(lim * 10)}), func(b *world.Builder) {
+			for _, q := range []world.QueueOpt{{Name: "org", GPU: g(-1, -1)}, {Name: "dept", Parent: "org", GPU: g(-1, lim)}, {Name: "qa", Parent: "dept", GPU: g(1, -1)}, {Name: "qb", Parent: "org", GPU: g(1, -1)}} {
+				q.CPU, q.Mem = u, u
+				b.Queue(q)
+			}
+		}})
+	}
+	lay := []nodeLayout{
+		{"2n-big40+small20", []world.NodeOpt{{Name: "n1", CPU: "16", Mem: "32Gi", GPUs: 1, GPUMemMiB: 40000}, {Name: "n2", CPU: "16", Mem: "32Gi", GPUs: 1, GPUMemMiB: 20000}}},
+		{"2n-big40x2+small20", []world.NodeOpt{{Name: "n1", CPU: "16", Mem: "32Gi", GPUs: 2, GPUMemMiB: 40000}, {Name: "n2", CPU: "16", Mem: "32Gi", GPUs: 1, GPUMemMiB: 20000}}},
+	}
+	cfgs := []schedrun.Config{{}, {Placement: "spread", ConsolidatingReclaim: true}}
+	return wlScenariosRange(menu, lay, qsets, cfgs, 2, 3)
+}
+
 func C08() *clustermc.Family {
 	return &clustermc.Family{
 		Property: "C08",
@@ -110,7 +144,7 @@ func C08() *clustermc.Family {
 				lay = append(lay, nodeLayout{"2n-2+2gpu", []world.NodeOpt{{Name: "n1", CPU: "16", Mem: "32Gi", GPUs: 2, GPUMemMiB: 40000}, {Name: "n2", CPU: "16", Mem: "32Gi", GPUs: 2, GPUMemMiB: 80000}}})
 			}
 			cfgs := []schedrun.Config{{}, {Placement: "spread", NoConsolidation: true}}
-			return append(wlScenarios(tier, limitsMenu(), lay, limitQueues(), cfgs, 3, 4), limitsReleasingScenarios(tier)...)
+			return append(append(wlScenarios(tier, limitsMenu(), lay, limitQueues(), cfgs, 3, 4), limitsReleasingScenarios(tier)...), limitsGpuMemoryScenarios(tier)...)
 		},
 		Depth:   func(tier string) int { return 3 },
 		Env:     clustermc.EnvOpts{BindOK: true, Terminate: true},
